@@ -10,7 +10,7 @@ import pykoop.lmi_regressors as lmi
 from .. import core, lmi_common as lc
 
 THEOREMS = ['Pk.C10.C10_core', 'Pk.C10.C10_dissipation', 'Pk.C10.W_nonneg', 'Pk.C10.C10_l2_gain',
-            'Pk.C10.C10_l2_gain_lmi', 'Pk.C10.brl_spec_block', 'Pk.C10.C10_stable', 'Pk.C10.brl_P_posDef']
+            'Pk.C10.C10_l2_gain_lmi', 'Pk.C10.brl_spec_block', 'Pk.C10.C10_stable', 'Pk.C10.brl_P_posDef', 'Pk.C10.C10_series_post', 'Pk.C10.C10_series_pre']
 
 
 def dyadic_weight(rng, kind, order=None):
